@@ -287,6 +287,30 @@ impl FileInfo {
 /*@end*/
 }
 
+
+// ---- where the line/column of a span is computed: Span::set_info (the only caller of trans_span2 on the diagnostic path) ----
+pub type Cursor1 = usize;   // as in span.rs
+/*@type lang/utils/src/span.rs :: struct Span @*/
+// packed cursors: proved over all (usize, usize) by Kani (unit c10_kani [COMPACT-ROUNDTRIP] [COMPACT-TOTAL]); signature only here
+pub struct CompactSpan2 { pub raw: u64 }
+impl CompactSpan2 {
+    #[verifier::external_body]
+    pub fn with_cursors(start: Cursor2, end: Cursor2) -> (r: Option<CompactSpan2>) { unimplemented!() }
+}
+impl Span {
+/*@fn lang/utils/src/span.rs :: impl Span :: fn set_info
+@*/
+    requires
+        // [SETINFO-PRE] the file description is the one FileInfo::new builds ([NEW-WF]) and the span lies inside that file (spans are
+        // token ranges of the lexer over the same text)
+        r#gen.wf(),
+        old(self).span1.0 <= r#gen.text_len && old(self).span1.1 <= r#gen.text_len,
+    ensures
+        // [SETINFO-FRAME] the byte range itself is untouched; both `trans_span2` calls meet their precondition (no panic)
+        final(self).span1 == old(self).span1,
+/*@end*/
+}
+
 // ---- vacuity guards ----
 pub proof fn reach_trans_span2(f: FileInfo)
     requires f.line_starts@ == seq![0usize, 3usize], f.text_len == 5,
